@@ -193,11 +193,78 @@ def _snapshot_globals():
                     if isinstance(d, (dict, list, set)):
                         _PRISTINE[(mname, k, f.__qualname__, "kwdefault", dk)] = (
                             "attr-container", d, type(d)(d))
-                if f.__dict__:
-                    _PRISTINE[(mname, k, f.__qualname__, "fdict")] = ("fdict", f, dict(f.__dict__))
+                # (every function, also those without attributes at import: an
+                # attribute *added* later is history that must not survive)
+                _PRISTINE[(mname, k, f.__qualname__, "fdict")] = ("fdict", f, dict(f.__dict__))
+            # closures: containers captured in cells
+            for f in objs:
+                if isinstance(f, _types.FunctionType) and f.__closure__:
+                    for ci, cell in enumerate(f.__closure__):
+                        try:
+                            cv = cell.cell_contents
+                        except ValueError:
+                            continue
+                        if isinstance(cv, (dict, list, set)):
+                            _PRISTINE[(mname, k, f.__qualname__, "cell", ci)] = (
+                                "attr-container", cv, type(cv)(cv))
+        _MODULE_NAMES[mname] = set(vars(mod))
+        for k, v in list(vars(mod).items()):
+            if isinstance(v, type) and getattr(v, "__module__", None) == mname:
+                _CLASS_NAMES[(mname, k)] = (v, set(vars(v)))
 
 
+_MODULE_NAMES = {}
+_CLASS_NAMES = {}
 _snapshot_globals()
+
+
+def _snapshot_process():
+    """Process-wide state outside the library that a call could change and a
+    later call could read."""
+    import autoray.autoray as _ara
+    st = {
+        "np_err": np.geterr(),
+        "np_print": np.get_printoptions(),
+        "warn_filters": list(warnings.filters),
+        "recursion": sys.getrecursionlimit(),
+        "environ": dict(os.environ),
+        "autoray": {},
+    }
+    for k, v in vars(_ara).items():
+        if k.startswith("__"):
+            continue
+        if isinstance(v, dict):
+            st["autoray"][k] = (v, {a: (dict(b) if isinstance(b, dict) else b) for a, b in v.items()})
+    return st
+
+
+_PROCESS = _snapshot_process()
+
+
+def restore_process():
+    np.seterr(**_PROCESS["np_err"])
+    np.set_printoptions(**_PROCESS["np_print"])
+    if warnings.filters != _PROCESS["warn_filters"]:
+        warnings.filters[:] = _PROCESS["warn_filters"]
+        getattr(warnings, "_filters_mutated", lambda: None)()
+    for mname in _MODULE_NAMES:
+        reg = getattr(sys.modules.get(mname), "__warningregistry__", None)
+        if reg:
+            reg.clear()
+    if sys.getrecursionlimit() != _PROCESS["recursion"]:
+        sys.setrecursionlimit(_PROCESS["recursion"])
+    if dict(os.environ) != _PROCESS["environ"]:
+        for k in list(os.environ):
+            if k not in _PROCESS["environ"]:
+                del os.environ[k]
+        for k, v in _PROCESS["environ"].items():
+            if os.environ.get(k) != v:
+                os.environ[k] = v
+    for k, (obj, val) in _PROCESS["autoray"].items():
+        if obj.keys() != val.keys() or any(
+                isinstance(val[a], dict) and obj[a] != val[a] for a in val):
+            obj.clear()
+            obj.update({a: (dict(b) if isinstance(b, dict) else b) for a, b in val.items()})
 
 
 def restore_globals():
@@ -229,6 +296,21 @@ def restore_globals():
         else:
             if getattr(mod, k, None) != val:
                 setattr(mod, k, val)
+    # module globals and class attributes that did not exist at import time
+    for mname, names in _MODULE_NAMES.items():
+        mod = sys.modules.get(mname)
+        if mod is None:
+            continue
+        for k in [k for k in vars(mod) if k not in names and not k.startswith("__")]:
+            if not isinstance(getattr(mod, k), _types.ModuleType):
+                delattr(mod, k)
+    for (mname, k), (cls, names) in _CLASS_NAMES.items():
+        for a in [a for a in vars(cls) if a not in names and not a.startswith("__")]:
+            try:
+                delattr(cls, a)
+            except (AttributeError, TypeError):
+                pass
+    restore_process()
 
 
 DEFAULT_MAXSIZE = 8192
